@@ -97,6 +97,9 @@ func (g *Gen) Fact() map[string]interface{} {
 	for i, k := 0, 1+g.R.Intn(3); i < k; i++ {
 		m[g.pick(topKeys)] = g.value(2)
 	}
+	if g.P.Name == "service" && !g.Homogeneous && g.R.Intn(6) == 0 { // in facts, not in events (the rule index takes no such array in an event)
+		m["d"] = []interface{}{[]interface{}{map[string]interface{}{"n": g.scalar()}}} // a list in a list, a map below
+	}
 	if g.P.Fan && g.R.Intn(3) > 0 {
 		// many dependents of few ids: fans (what a cascade that fails half-way needs)
 		m["deleteWith"] = []interface{}{g.P.Ids[g.R.Intn(2)]}
@@ -109,6 +112,9 @@ func (g *Gen) Fact() map[string]interface{} {
 				t = "!" + t + ".disabled" // a property fact as the target
 			}
 			dw = append(dw, t)
+		}
+		if g.R.Intn(6) == 0 {
+			dw = append([]interface{}{17.0}, dw...) // something that is no id stands first
 		}
 		m["deleteWith"] = dw
 	}
@@ -586,6 +592,9 @@ func (g *Gen) cronRule() map[string]interface{} {
 		r["when"] = map[string]interface{}{"pattern": g.smallPattern([]string{"?x"})}
 	} else {
 		r["schedule"] = schedules[g.R.Intn(len(schedules))]
+		if g.R.Intn(3) == 0 {
+			r["id"] = g.pick(g.P.Ids) // the body names an id of its own (not necessarily the one it is stored under)
+		}
 	}
 	if g.R.Intn(3) == 0 {
 		r["condition"] = map[string]interface{}{"pattern": g.smallPattern([]string{"?y", "?z"})}
@@ -651,6 +660,9 @@ func (g *Gen) Rule() map[string]interface{} {
 		// a scheduled rule (never dispatched by an event)
 		delete(r, "when")
 		r["schedule"] = []string{"+1h", "* * * * * * *", "!2033-01-01T00:00:00Z"}[g.R.Intn(3)]
+		if g.R.Intn(3) == 0 {
+			r["id"] = g.pick(g.P.Ids) // the body names an id of its own (not necessarily the one it is stored under)
+		}
 	}
 	if g.P.SideEffects && g.R.Intn(2) == 0 {
 		delete(r, "actions")
@@ -689,7 +701,7 @@ func (g *Gen) weighted() string {
 
 var opOrder = []string{"Tick", "Restart", "BadRequest", "CreateLocation", "AddFact", "RemFact", "GetFact", "SearchFacts", "AddRule", "RemRule", "GetRule",
 	"EnableRule", "SetParents", "GetParents", "Clear", "StateSize", "ListRules", "SearchRules",
-	"ProcessEvent", "SetReadOnly", "Reload", "Sleep", "SleepReload", "SetKey"}
+	"ProcessEvent", "SetReadOnly", "Reload", "Sleep", "SleepReload", "SetParentsFact", "SetKey"}
 
 // Next draws the next operation.
 func (g *Gen) Next() Op {
@@ -779,6 +791,19 @@ func (g *Gen) Next() Op {
 		}
 	case "BadRequest":
 		op.Id = g.pick([]string{"missing-location", "missing-fact", "fact-not-a-map", "unknown-uri", "empty-body", "location-not-string"})
+	case "SetParentsFact":
+		// the parents property written or removed through the fact API instead of SetParents
+		if g.R.Intn(3) == 0 {
+			op.Op, op.Id = "RemFact", "!.parents"
+		} else {
+			op.Op = "AddFact"
+			ns := []interface{}{}
+			perm := g.R.Perm(len(g.P.Locs))
+			for i, n := 0, g.R.Intn(3); i < n && i < len(perm); i++ {
+				ns = append(ns, g.P.Locs[perm[i]])
+			}
+			op.Val = map[string]interface{}{"!parents": ns}
+		}
 	case "SetKey":
 		// a write/read key or the enabled flag, set through the fact API
 		op.Op = "AddFact"
